@@ -331,8 +331,13 @@ def c04(repo, res):
         raise AnalysisError("anchor vanished: no `handedness` branch in getBH_level2")
     for h in hand:
         is_left = "left" in ast.unparse(h.test) or any(hand_left.get(x.id) for x in ast.walk(h.test) if isinstance(x, ast.Name))
-        ok = is_left and len(h.body) == 1 and not h.orelse
-        st = h.body[0] if h.body else None
+        # the flip, possibly preceded by plain local bookkeeping (`pix_slice = slice(a, b)`)
+        def bookkeeping(s_):
+            return isinstance(s_, ast.Assign) and len(s_.targets) == 1 and isinstance(s_.targets[0], ast.Name) and not any(
+                isinstance(c_, ast.Call) and not (isinstance(c_.func, ast.Name) and c_.func.id in ("slice", "range", "len")) for c_ in ast.walk(s_.value))
+        flips = [s_ for s_ in h.body if not bookkeeping(s_)]
+        ok = is_left and len(flips) == 1 and not h.orelse
+        st = flips[0] if flips else None
         if ok:
             ok = isinstance(st, ast.AugAssign) and isinstance(st.op, ast.Mult) and ast.unparse(st.value) in ("-1", "-1.0") \
                 and isinstance(st.target, ast.Subscript)
@@ -342,7 +347,7 @@ def c04(repo, res):
                 ok = isinstance(last, ast.Constant) and last.value == 0 and isinstance(sl, ast.Tuple)
         res.ob(f"F4:handedness:{norm(h.test)}", ok, {"rule": "F4", "branch": norm(h.test), "body": [norm(s) for s in h.body]})
         if not ok:
-            res.add(Finding("F4:handedness", rel, "getBH_level2", h.body[0] if h.body else h,
+            res.add(Finding("F4:handedness", rel, "getBH_level2", st if st is not None else (h.body[0] if h.body else h),
                             "a left-handed sensor must differ only by the sign of component 0 of the last axis (x)", h.lineno))
     # ---- F6: the flip precedes the pixel aggregation (min/max/std/ptp do not commute with a sign change)
     aggnames = {t.id for a in ast.walk(node) if isinstance(a, ast.Assign) and isinstance(a.value, ast.Call) and
@@ -439,6 +444,20 @@ def c04(repo, res):
                 if "check_static_sensor_orient" in t or any(isinstance(x, ast.Name) and x.id in static_names for x in ast.walk(a.value)):
                     static_names.add(a.targets[0].id)
                     changed = True
+            if isinstance(a, (ast.For, ast.comprehension)):
+                # a loop variable drawn from the list of staticness flags (directly, or position-wise through zip / enumerate) is such a flag
+                it_, tg_ = a.iter, a.target
+                if isinstance(it_, ast.Name):
+                    ds_ = [x.value for x in ast.walk(node) if isinstance(x, ast.Assign) and len(x.targets) == 1 and isinstance(x.targets[0], ast.Name) and x.targets[0].id == it_.id]
+                    it_ = ds_[0] if len(ds_) == 1 and isinstance(ds_[0], ast.Call) else it_
+                if isinstance(it_, ast.Call) and getattr(it_.func, "id", "") == "enumerate" and it_.args and isinstance(tg_, ast.Tuple) and len(tg_.elts) == 2:
+                    it_, tg_ = it_.args[0], tg_.elts[1]
+                pairs_ = list(zip(tg_.elts, it_.args)) if isinstance(it_, ast.Call) and getattr(it_.func, "id", "") == "zip" and isinstance(tg_, ast.Tuple) \
+                    and len(tg_.elts) == len(it_.args) else [(tg_, it_)]
+                for t1, a1 in pairs_:
+                    if isinstance(t1, ast.Name) and t1.id not in static_names and isinstance(a1, ast.Name) and a1.id in static_names:
+                        static_names.add(t1.id)
+                        changed = True
     # ---- F9: a constant path index on a pose path is only legitimate where staticness was established (or as the last-entry padding)
     for x in ast.walk(node):
         if isinstance(x, ast.Subscript) and isinstance(x.value, ast.Attribute) and x.value.attr in ("_orientation", "_position") and \
@@ -446,9 +465,13 @@ def c04(repo, res):
             idx = ast.unparse(x.slice)
             p = parents.get(id(x))
             guards = []
+            ch_ = x
             while p is not None:
                 if isinstance(p, ast.If):
                     guards.append(norm(p.test))
+                if isinstance(p, ast.IfExp) and ch_ is not p.test:
+                    guards.append(norm(p.test))          # `<path>[0] if static else <whole path>`
+                ch_ = p
                 p = parents.get(id(p))
             ok9 = idx == "-1" or any("static" in g or any(nm in g for nm in static_names) for g in guards)
             res.ob(f"F9:{norm(x)}", ok9, {"rule": "F9", "use": norm(x), "guards": guards})
@@ -459,13 +482,13 @@ def c04(repo, res):
     n5 = path_quantifier_rule(res, node, rel, "getBH_level2")
     arepo = ARepo(common.REPO)
     um = arepo.module("magpylib._src.utility")
-    if um is None or "check_static_sensor_orient" not in um.funcs:
-        raise AnalysisError("anchor vanished: utility.check_static_sensor_orient")
-    n5 += path_quantifier_rule(res, um.funcs["check_static_sensor_orient"], "magpylib/_src/utility.py", "check_static_sensor_orient")
-    # the per-sensor predicate may live in a helper of the same module
-    for c in ast.walk(um.funcs["check_static_sensor_orient"]):
-        if isinstance(c, ast.Call) and isinstance(c.func, ast.Name) and c.func.id in um.funcs and c.func.id != "check_static_sensor_orient":
-            n5 += path_quantifier_rule(res, um.funcs[c.func.id], "magpylib/_src/utility.py", c.func.id)
+    if um is not None and "check_static_sensor_orient" in um.funcs:
+        n5 += path_quantifier_rule(res, um.funcs["check_static_sensor_orient"], "magpylib/_src/utility.py", "check_static_sensor_orient")
+        # the per-sensor predicate may live in a helper of the same module
+        for c in ast.walk(um.funcs["check_static_sensor_orient"]):
+            if isinstance(c, ast.Call) and isinstance(c.func, ast.Name) and c.func.id in um.funcs and c.func.id != "check_static_sensor_orient":
+                n5 += path_quantifier_rule(res, um.funcs[c.func.id], "magpylib/_src/utility.py", c.func.id)
+    # (when the staticness predicate was inlined into getBH_level2 it was counted there; the floor below holds either way)
     if n5 < 2:
         raise AnalysisError(f"F5: only {n5} orientation-path predicates found (unrotated + static expected)")
     return {}
